@@ -417,6 +417,18 @@ let process (ic : in_channel) =
               let k = n_of_string (List.nth toks 1) in
               Printf.printf "%d %s -> %s | %s\n" !idx line
                 (string_of_n (frequency r.sr_state.s_sk (c.sc_hash k))) (fmt_sstate r.sr_state)
+            | MSync (c, r) when List.hd toks = "TD" ->
+              (* an iterator created now and drained after the clock moved on by d: every entry is tested
+                 against the clock when it is visited, i.e. the result is that of `D d; T` *)
+              let d = n_of_string (List.nth toks 1) in
+              (match sstep c r (SAdvance d) with
+               | Ok (r1, _) ->
+                 (match sstep c r1 SIter with
+                  | Ok (r2, out) ->
+                    Printf.printf "%d %s -> %s | %s\n" !idx line (fmt_sout out) (fmt_sstate r2.sr_state);
+                    mode := MSync (c, r2)
+                  | Err e -> Printf.printf "%d %s -> ERR %s\n" !idx line (string_of_err e); mode := MDead)
+               | Err e -> Printf.printf "%d %s -> ERR %s\n" !idx line (string_of_err e); mode := MDead)
             | MSync (c, r) ->
               (match sstep c r (parse_sop toks) with
                | Ok (r', out) ->
@@ -436,6 +448,16 @@ let process (ic : in_channel) =
               let k = n_of_string (List.nth toks 1) in
               Printf.printf "%d %s -> %s | %s\n" !idx line
                 (string_of_n (frequency r.ur_state.u_sk (c.uc_hash k))) (fmt_ustate r.ur_state)
+            | MUnsync (c, r) when List.hd toks = "TD" ->
+              let d = n_of_string (List.nth toks 1) in
+              (match ustep c r (UAdvance d) with
+               | Ok (r1, _) ->
+                 (match ustep c r1 UIter with
+                  | Ok (r2, out) ->
+                    Printf.printf "%d %s -> %s | %s\n" !idx line (fmt_uout out) (fmt_ustate r2.ur_state);
+                    mode := MUnsync (c, r2)
+                  | Err e -> Printf.printf "%d %s -> ERR %s\n" !idx line (string_of_err e); mode := MDead)
+               | Err e -> Printf.printf "%d %s -> ERR %s\n" !idx line (string_of_err e); mode := MDead)
             | MUnsync (c, r) ->
               (match ustep c r (parse_uop toks) with
                | Ok (r', out) ->
